@@ -369,6 +369,19 @@ fn run_op(w: &mut World, op: &Value) -> Value {
             }));
             json!(if r.is_ok() { "answered" } else { "refused" })
         }
+        "watchdog_decision" => {
+            let hs: Vec<Option<u64>> = op["heights"].as_array().unwrap().iter().map(|x| x.as_u64()).collect();
+            let r = watchdog::verif_hooks::decision(op["target"].as_u64().unwrap() as usize, op["canister_height"].as_u64(), hs);
+            json!(match r { Some(true) => "enable", Some(false) => "disable", None => "none" })
+        }
+        "transform" => {
+            let headers: Vec<(String, String)> = op["headers"].as_array().map(|a| a.iter().map(|h| (h[0].as_str().unwrap().to_string(), h[1].as_str().unwrap().to_string())).collect()).unwrap_or_default();
+            let body = hex::decode(op["body_hex"].as_str().unwrap_or("")).unwrap();
+            match watchdog::verif_hooks::transform(op["name"].as_str().unwrap(), op["status"].as_u64().unwrap_or(200), headers, body) {
+                Some((status, nheaders, body)) => json!({"status": status, "headers": nheaders, "body": String::from_utf8_lossy(&body), "body_hex": hex::encode(&body)}),
+                None => json!("unknown transform"),
+            }
+        }
         "tree" => {
             let hashes = with_state(|s| unstable_blocks::get_block_hashes(&s.unstable_blocks));
             json!({"blocks": hashes.iter().map(|h| block_id_of(w, &h.to_vec())).collect::<Vec<_>>(),
